@@ -280,7 +280,7 @@ package util
 //@   ensures[C08.hull C10]   bounded && n >= 2 ==> min(oldAvg, newValue) <= result && result <= max(oldAvg, newValue)
 //@   ensures[C08.n1zero C10] fin(oldAvg) && fin(newValue) && n == 1 && real(newValue) == 0.0 && abs(real(oldAvg)) <= 1.0e300 ==> real(result) == 0.0 && fin(result)
 //@   ensures[C10.unit]  fin(oldAvg) && fin(newValue) && real(oldAvg) == 1.0 && real(newValue) == 0.0 ==> result < 1.0 && result >= 0.0
-//@   ensures[C10.decay] fin(oldAvg) && fin(newValue) && real(newValue) == 0.0 && real(oldAvg) >= 1.0 && real(oldAvg) <= 1.0e15 && n <= 1000 ==> real(result) <= real(oldAvg) + (0.0 - real(oldAvg)) / real(n) / 2.0 && real(result) >= 0.0
+//@   ensures[C10.decay thorough] fin(oldAvg) && fin(newValue) && real(newValue) == 0.0 && real(oldAvg) >= 1.0 && real(oldAvg) <= 1.0e15 && n <= 1000 ==> real(result) <= real(oldAvg) + (0.0 - real(oldAvg)) / real(n) / 2.0 && real(result) >= 0.0
 //@   ensures[C08.fixpoint C10] fin(oldAvg) && abs(real(oldAvg)) <= 1.0e300 && oldAvg == newValue ==> result == newValue
 //@   modifies nothing
 
